@@ -610,6 +610,14 @@ def positive_controls(chk, D, rules=("SWAPSYM", "GAPSHIFT", "DISTGUARD")):
             chk.analysis_broken("GAPSHIFT: the positive control fixture::seq::insert_bad was not reported (%s)" % ([(v, m) for _x, v, m in rb or []],))
         if not (rg and all(v is True for _x, v, _m in rg)):
             chk.analysis_broken("GAPSHIFT: the negative control fixture::seq::insert_good was not proved (%s)" % ([(v, m) for _x, v, m in rg or []],))
+    if "STALEREP" in rules:
+        b, g = one("unique_copy_bad"), one("unique_copy_good")
+        rb = check_stale_rep(b) if b else None
+        rg = check_stale_rep(g) if g else None
+        if not rb:
+            chk.analysis_broken("STALEREP: the positive control fixture::unique_copy_bad was not reported (%s)" % (rb,))
+        if rg is None or rg:
+            chk.analysis_broken("STALEREP: the negative control fixture::unique_copy_good was not proved (%s)" % (rg,))
     if "DISTGUARD" in rules:
         b, g = one("search_bad"), one("search_good")
         rb = check_dist_guard(b) if b else None
@@ -991,4 +999,146 @@ def forward_move_area(chk, db, prefixes, rule="FWDMOVE"):
                           "%s: `%s` moves from a forwarding reference: when the caller passes an lvalue its object is moved from "
                           "(std::vector::push_back(x) copies x); the parameter is to be passed on with etl::forward"
                           % (astx.loc(f, node), astx.show(node, 40)), {"where": astx.loc(f)})
+    return n
+
+
+# ---- ALIASSTR: an argument that may refer to the string itself is read before the string is modified ---------------------------
+STR_MUTATORS = {"unsafe_set_size", "clear", "resize", "push_back", "pop_back", "append", "erase", "insert", "insert_impl", "replace",
+                "fill", "rotate", "assign"}
+
+
+def check_alias_string(f, own_record):
+    """std::basic_string's assign / append / insert / replace accept a string or a character pointer that refers to the
+    string itself (`s.assign(s, 1, 3)`, `s = s.c_str() + 1`). On every structural path of such a member no read of that
+    parameter follows a call that modifies `*this` (a raw size store, which also writes the terminator; a traits copy / move /
+    assign into data(); clear / erase / append ...). A statement that reads the parameter *as an argument of* the modifying
+    call itself is fine (arguments are evaluated first). returns None | list of (read node, mutation node, param)"""
+    if f.get("body") is None or f.get("record") != own_record or f["n"] in ("<ctor>", "<dtor>", "swap", "operator=") and False:
+        return None
+    if f["n"] in ("<ctor>", "<dtor>", "swap"):
+        return None
+    short = own_record.split("::")[-1]
+    params = []
+    for p0 in f["params"]:
+        ty = p0.get("ty", "")
+        if not p0.get("n"):
+            continue
+        if (short in ty and "&" in ty and "&&" not in ty) or re.search(r"const_pointer|const\s+Char\s*\*|Char\s+const\s*\*", ty):
+            params.append(p0["n"])
+    if not params:
+        return None
+    bad = []
+    for p in SP.paths(f["body"]):
+        mut = None
+        for ev in p:
+            exprs = []
+            if ev[0] in ("expr", "ret", "cond") and len(ev) > 1 and ev[1] is not None:
+                exprs.append(ev[1])
+            if ev[0] == "decl" and ev[1].get("init") is not None:
+                exprs.append(ev[1]["init"])
+            for e in exprs:
+                reads = [y for y in astx.walk_expr(e, into_lambdas=True) if y.get("k") == "ref" and y.get("d") == "param" and y.get("n") in params]
+                if reads and mut is not None and not any(b[0] is reads[0] for b in bad):
+                    bad.append((reads[0], mut, reads[0]["n"]))
+                for c in SP.calls_in(e):
+                    nm, q, recv, kind = astx.callee(c)
+                    r0 = astx.strip_casts(recv) if recv is not None else None
+                    own = r0 is None or astx.is_this(r0)
+                    is_mut = False
+                    if nm in STR_MUTATORS and own and kind == "member":
+                        is_mut = True
+                    if nm in ("copy", "move", "assign") and len(c["a"]) == 3 and "traits" in astx.show(c["f"], 40).lower():
+                        a0 = astx.show(c["a"][0], 40)
+                        if re.search(r"\bdata\(\)|\bbegin\(\)|\bend\(\)", a0) and not any(pn in a0 for pn in params):
+                            is_mut = True
+                    if is_mut and mut is None:
+                        mut = c
+    return bad
+
+
+def alias_string_area(chk, db, own_record, rule="ALIASSTR"):
+    n = 0
+    for f in db.funcs:
+        r = check_alias_string(f, own_record)
+        if r is None:
+            continue
+        n += 1
+        construct = astx.sig(f)
+        chk.instance(rule)
+        chk.obligation(rule, construct, not r)
+        for rd, mut, pn in r[:1]:
+            chk.violation(rule, construct, "argument-read-after-self-modification",
+                          "%s: `%s` is read after `%s` has already modified the string; std::basic_string accepts an argument that "
+                          "refers to the string itself (`s.assign(s, 1, 3)`, `s = s.c_str() + 1`), whose characters (and terminator "
+                          "position) have changed by then" % (astx.loc(f, rd), pn, astx.show(mut, 50)), {"where": astx.loc(f)})
+    return n
+
+
+# ---- STALEREP: a cached group representative is refreshed when the group changes -----------------------------------------------
+def check_stale_rep(f):
+    """`auto value = *first;` followed by a loop that advances `first`, compares `value` with `*first` through the functor
+    (or ==) and writes to an output on the branch where they differ: the cached element stands for the *current group*
+    (unique_copy, and the run-length family), so it must be assigned inside that loop. A local that is never assigned there
+    keeps standing for the first group for ever. returns None | list of (local, loop)"""
+    if f.get("body") is None:
+        return None
+    its = set(p["n"] for p in f["params"] if p.get("n") and re.search(r"It\d*$|Iter\d*$|Iterator$|\*$", p["ty"].replace("const ", "").strip()))
+    if not its:
+        return None
+    fps = set(p["n"] for p in f["params"] if p.get("n") and re.match(r"^(Compare|Predicate|BinaryPredicate|BinaryPred|Pred|Comp)\b",
+                                                                     p["ty"].replace("const ", "").strip()))
+    cached = {}
+    for st in astx.walk_stmts(f["body"]):
+        if st.get("k") == "decl":
+            for v in st["vars"]:
+                i0 = astx.strip_casts(v.get("init")) if v.get("init") is not None else None
+                if i0 is not None and i0.get("k") == "un" and i0["op"] == "*" and ref_name(i0["e"]) in its and "&" not in (v.get("ty") or ""):
+                    cached[v["n"]] = ref_name(i0["e"])
+    if not cached:
+        return None
+    out = []
+    subject = False
+    for lp in [st for st in astx.walk_stmts(f["body"]) if st.get("k") in ("for", "while", "do")]:
+        exprs = list(astx.walk_stmt_exprs(lp.get("body"), into_lambdas=False))
+        for part in ("c", "inc"):
+            if lp.get(part) is not None:
+                exprs += list(astx.walk_expr(lp[part]))
+        for name, cur in cached.items():
+            advances = any(x.get("k") == "un" and x["op"] == "++" and ref_name(x["e"]) == cur for x in exprs)
+            compared = False
+            for x in exprs:
+                if x.get("k") == "call":
+                    fn = astx.strip_casts(x["f"])
+                    if fn is not None and fn.get("k") == "ref" and fn.get("n") in fps and any(ref_name(a) == name for a in x["a"]):
+                        compared = True
+                if x.get("k") == "bin" and x["op"] in ("==", "!=") and (ref_name(x["l"]) == name or ref_name(x["r"]) == name):
+                    compared = True
+            writes = any(x.get("k") == "bin" and x["op"] == "=" and astx.strip_casts(x["l"]) is not None and
+                         astx.strip_casts(x["l"]).get("k") == "un" and astx.strip_casts(x["l"])["op"] == "*" for x in exprs)
+            if not (advances and compared and writes):
+                continue
+            subject = True
+            assigned = any(x.get("k") == "bin" and x["op"] == "=" and ref_name(x["l"]) == name for x in exprs)
+            if not assigned:
+                out.append((name, lp))
+    return out if subject else None
+
+
+def stale_rep_area(chk, db, prefixes, rule="STALEREP"):
+    n = 0
+    for f in db.funcs:
+        if f.get("body") is None or not any(f["file"].startswith(p) for p in prefixes):
+            continue
+        r = check_stale_rep(f)
+        if r is None:
+            continue
+        n += 1
+        construct = astx.sig(f)
+        chk.instance(rule)
+        chk.obligation(rule, construct, not r)
+        for name, lp in r[:1]:
+            chk.violation(rule, construct, "cached-element-never-refreshed",
+                          "%s: `%s` caches the first element and is compared with every later one, but the loop that writes a new "
+                          "group never assigns it: later groups are compared with the first group's element"
+                          % (astx.loc(f, lp), name), {"where": astx.loc(f)})
     return n
